@@ -138,8 +138,27 @@ def rule_error_path(ctx):
                 okk = must_call_before(fn, n, {appender})
                 ctx.check(R, "cache_%s/error-exit(return)/reports-appended-first" % kind, okk, "return %s not preceded by %s" % (render(n["e"])[:60], appender), site(RUN, n))
         # the failing report itself is added to the collection that is appended
-        pushes = [p for p in method_calls(fn["body"], "push") if render(strip(p["recv"])) == "reports"]
-        ctx.check(R, "cache_%s/error-report-collected" % kind, any("report" in render(p["args"][0]) for p in pushes), "the boxed report of the failed lifting is pushed to `reports`", site(RUN, fn))
+        # the collection handed to generate_cfg receives the Err payload, and is the one given to the appender
+        coll = render(strip(g["args"][2])) if len(g["args"]) >= 3 else "reports"
+        lets_ = {}
+        for n_ in walk(fn["body"]):
+            if n_["k"] == "Local" and n_["pat"]["k"] == "PIdent" and n_["init"] is not None:
+                lets_[n_["pat"]["name"]] = n_["init"]
+        collected = False
+        for p in [p for p in method_calls(fn["body"], "push") if render(strip(p["recv"])) == coll]:
+            arg = render(strip(p["args"][0]))
+            for c in conditions_to(fn["body"], p) or []:
+                pat, scr = (c[1], c[2]) if c[0] == "iflet" and c[3] else ((c[2], c[1]) if c[0] == "arm" else (None, None))
+                if pat is None:
+                    continue
+                sc = strip(scr)
+                # (facts are stated over let definitions, as copies: compare by text)
+                from_gen = render(g) in render(sc) or (sc["k"] == "Path" and sc["path"] in lets_ and render(g) in render(lets_[sc["path"]]))
+                if from_gen and render(pat).replace(" ", "") == "Err(%s)" % arg:
+                    collected = True
+        apps_ = [a_ for a_ in method_calls(fn["body"], appender) if a_["args"]]
+        appended = bool(apps_) and all(render(strip(a_["args"][-1])) == coll for a_ in apps_)  # every append hands over the whole collection
+        ctx.check(R, "cache_%s/error-report-collected" % kind, collected and appended, "the boxed report of the failed lifting is pushed to `%s`, which is handed to %s" % (coll, appender), site(RUN, fn))
         # success path appends too
         app = [c for c in method_calls(fn["body"], appender)]
         ctx.check(R, "cache_%s/append-present" % kind, len(app) >= 1, "%d call(s) of %s" % (len(app), appender), site(RUN, fn))
